@@ -10,6 +10,9 @@
 (*  Bcast  b                    the broadcast the simulator sent (validated: *)
 (*                              it must report exactly the model's state)    *)
 (*  Seen   g {...}              the device object the bridge handed over     *)
+(*  Reply  b                    the state reply the simulator sent to a      *)
+(*                              state query (validated like Bcast)           *)
+(*  Read   op, r {...}          the response object the state query returned *)
 (* The user's request is applied to the model through Wire's encoding of the *)
 (* arguments, so "what the bridge reports = what the user asked for" is      *)
 (* checked across encoder (C02), device model and decoder (C05).             *)
@@ -29,9 +32,25 @@ Intent(e) ==
     [] e.op = "set_device_name" -> [kind |-> "setname", name |-> NameField(a.cps)]
     [] e.op = "set_position" -> [kind |-> "runnerpos", pos |-> a.pos]
     [] e.op = "stop" -> [kind |-> "runnerstop"]
+    [] e.op \in {"get_state", "get_shutter_state", "get_breeze_state"} -> [kind |-> "query"]
     [] e.op = "update_state" -> [kind |-> "breezestatus", state |-> a.state, mode |-> a.mode, temp |-> a.temp, fan |-> a.fan, swing |-> a.swing]
     [] OTHER -> NoWant
 Strip(f) == [k \in (DOMAIN f) \ {"sess", "ts", "dev"} |-> f[k]]
+
+\* what a state query returned against what the device holds (Device!Readback)
+SameRead(fam, r, q) ==
+  IF fam \in {"heater", "plug"}
+  THEN    Cl(r.state = q.state, "C08:e2e-state") \o Cl(r.watts = q.watts, "C08:e2e-power") \o Cl(AmpsOk(q.watts, r.amps10), "C08:e2e-current")
+       \o Cl(r.left = q.left, "C08:e2e-time-left") \o Cl(r.on = q.on, "C08:e2e-time-on") \o Cl(r.auto = q.auto, "C08:e2e-auto-shutdown")
+  ELSE IF fam = "shutter"
+  THEN Cl(r.position = q.position, "C08:e2e-position") \o Cl(r.direction = q.direction, "C08:e2e-direction")
+  ELSE    Cl(r.state = q.state /\ r.mode = q.mode /\ r.target = q.target /\ r.fan = q.fan /\ r.swing = q.swing, "C08:e2e-thermostat-settings")
+       \o Cl(r.temp10 = q.temp10, "C08:e2e-temperature") \o Cl(r.remote = q.remote, "C08:e2e-remote-id")
+ReplyOk(fam, b) == CASE fam \in {"heater", "plug"} -> WellFormedState1(b) [] fam = "shutter" -> WellFormedShutter(b) [] OTHER -> WellFormedThermo(b)
+ReplyMeans(fam, b) ==
+  CASE fam \in {"heater", "plug"} -> DecodeState1(b)
+    [] fam = "shutter" -> DecodeShutter(b)
+    [] OTHER -> DecodeThermo(b)
 
 SameReport(fam, g, r) ==
      Cl(g.name = r.name, "C05:e2e-name")
@@ -49,13 +68,27 @@ Step(e) ==
     [] e.ev = "Op" -> R(<<>>, "op-" \o e.op, dev, Intent(e))
     [] e.ev = "Frame" ->
          LET f == DecodeFrame(e.b) IN
-         IF f.kind \in {"login1", "login2", "getstate1", "getstate2", "getschedules"} THEN R(<<>>, "frame-" \o f.kind, dev, want)
+         IF f.kind \in {"getstate1", "getstate2"} /\ want.kind # "query" /\ dev.fam # "thermo"
+         THEN R(<<"C03:e2e-unrequested-state-query">>, "frame-unrequested-query", dev, want)
+         ELSE IF f.kind \in {"login1", "login2", "getstate1", "getstate2", "getschedules"} THEN R(<<>>, "frame-" \o f.kind, dev, want)
+         ELSE IF want.kind = "query" THEN RF(<<"C03:e2e-command-frame-during-a-state-query">>, "frame-in-query", dev, Apply(devf, f), want)
          ELSE IF want.kind = "none" THEN RF(<<"C03:e2e-unrequested-command-frame">>, "frame-unrequested", dev, Apply(devf, f), want)
          ELSE RF(Cl(f.kind # "malformed" /\ Strip(f) = want, "C02:e2e-frame-decodes-to-the-request")
                  \o Cl(f.kind = "malformed" \/ f.dev = dev.id, "C03:e2e-device-id"),
                  "frame-" \o want.kind, Apply(dev, want @@ [dev |-> dev.id]), Apply(devf, f), NoWant)
     [] e.ev = "OpRaised" ->     \* every request of these scenarios has accepted arguments and a device that answers
-         R(<<"C02:e2e-accepted-request-raised">>, "op-raised", dev, NoWant)
+         IF want.kind = "query" THEN R(<<"C08:e2e-state-query-raised">>, "query-raised", dev, NoWant)
+         ELSE R(<<"C02:e2e-accepted-request-raised">>, "op-raised", dev, NoWant)
+    [] e.ev = "Reply" ->        \* the simulator's state reply must say exactly what the device model holds
+         LET ok == ReplyOk(dev.fam, e.b) IN
+         R(Cl(ok, "harness:simulator-state-reply-malformed")
+           \o (IF ok /\ ReplyMeans(dev.fam, e.b) # Readback(devf) THEN <<"harness:simulator-state-reply-differs-from-the-device-model">> ELSE <<>>),
+           "state-reply", dev, want)
+    [] e.ev = "Read" ->
+         R(Cl(want.kind = "query", "harness:read-without-query")
+           \o SameRead(dev.fam, e.r, Readback(devf))
+           \o (IF Readback(devf) = Readback(dev) THEN <<>> ELSE <<"C02:e2e-device-state-differs-from-the-request">>),
+           "read-" \o dev.fam \o (IF dev.fam \in {"heater", "plug"} THEN (IF dev.power = 1 THEN "-on" ELSE "-off") ELSE ""), dev, NoWant)
     [] e.ev = "Elapse" -> RF(<<>>, "elapse", Elapse(dev, e.s), Elapse(devf, e.s), want)
     [] e.ev = "Bcast" ->
          LET ok == Gate(e.b) /\ WellFormedFor(dev.fam, e.b) /\ CodeOf(e.b) = dev.code
@@ -83,4 +116,5 @@ Spec == Init /\ [][Next]_vars
 Done == i = NEvents + 1 => WriteVerdict(bad, dropped, tags)
 \* the device model's own invariants along every recorded behaviour
 PowerAndTimerAgree == dev.fam \in {"heater", "plug"} => (dev.power = 0 <=> dev.remaining = 0)
+ViewsAgreeAlways == ViewsAgree(dev) /\ ViewsAgree(devf)
 =============================================================================
